@@ -21,7 +21,7 @@ func init() {
 }
 
 func runC19(ctx *Ctx) {
-	alpha := []byte{'_', '%', '.', ' ', 'a', 'F', '0', 0xc3, 0xa9, '@', '~'}
+	alpha := []byte{'_', '%', '.', ' ', 'a', 'F', '0', '2', '5', 0xc3, 0xa9, '@', '~'}
 	maxLen := ctx.Len(4, 6)
 	var segs [][]byte
 	enumStrings(alpha, maxLen, func(s []byte) { segs = append(segs, append([]byte(nil), s...)) })
@@ -76,9 +76,9 @@ func runC19(ctx *Ctx) {
 		ctx.Cov.Count([]byte(t), nontrivial)
 		if prev, ok := seen[name]; ok && prev != t {
 			ctx.Violate(Violation{Kind: "wrong-output", Site: "catalog.tagName",
-				What:      fmt.Sprintf("two different first segments get one automatic tag name: %q and %q -> %q", prev, t, name),
-				Input:     map[string]any{"op": "tagname-pair", "a": hx([]byte(prev)), "b": hx([]byte(t))},
-				Observed:  name, Signature: "tagname-collision"})
+				What:     fmt.Sprintf("two different first segments get one automatic tag name: %q and %q -> %q", prev, t, name),
+				Input:    map[string]any{"op": "tagname-pair", "a": hx([]byte(prev)), "b": hx([]byte(t))},
+				Observed: name, Signature: "tagname-collision"})
 		}
 		seen[name] = t
 	}
